@@ -6,7 +6,7 @@
    token invariants on which the literal constructors rely (so that IntegerNode/RealNode/CharNode cannot
    hit an unchecked conversion); the arithmetic leaves cannot trap.  That the evaluator never reaches an
    FCrash is checked by the correspondence on the crash oracle (normal + sanitizer build), not yet proved. *)
-From PE2 Require Import Lexer Parser Eval Lemmas_Lexer Lemmas_Expr.
+From PE2 Require Import Lexer Parser Eval Run Lemmas_Lexer Lemmas_Expr Lemmas_Fuel Lemmas_FuelRun Lemmas_Out Lemmas_LexTotal.
 Local Open Scope Z_scope.
 
 (* every CHAR token holds exactly one character; every INTEGER/REAL token is non-empty and starts with a digit *)
@@ -24,6 +24,40 @@ Print Assumptions C01_div_cannot_trap.
 Theorem C01_wrap_in_range : forall z, int64_min <= wrap64 z <= int64_max.
 Proof. exact wrap64_in_range. Qed.
 Print Assumptions C01_wrap_in_range.
+
+(* the lexer is total and always makes progress: for every text it either reports a lexical error or has read the
+   text to its end -- its loop is never stopped by its fuel *)
+Theorem C01_lexer_reads_everything_or_diagnoses : forall ped input,
+  (exists e, lex ped input = inr e) \/
+  (exists s toks, lex_loop (S (List.length (remove_cr input))) ped (init_lst (remove_cr input)) [] = LOk s toks /\ at_end s = true /\
+                  lex ped input = inl (rev (mkTok TEXPRESSION_END (line s) (col s) [] :: toks))).
+Proof. exact lex_total. Qed.
+Print Assumptions C01_lexer_reads_everything_or_diagnoses.
+
+Theorem C01_lexer_step_consumes : forall ped s toks s' toks', at_end s = false -> lex_step ped s toks = LOk s' toks' ->
+  (List.length (rest s') < List.length (rest s))%nat.
+Proof. exact lex_step_progress. Qed.
+Print Assumptions C01_lexer_step_consumes.
+
+(* the recursion fuel of the model is only a bound, not a behaviour: a run that did not stop for lack of fuel is the
+   run with every larger fuel (so "executed or diagnosed" does not depend on the number chosen, and a fuel stop is
+   the one outcome the correspondence counts as inconclusive) *)
+Theorem C01_fuel_is_only_a_bound : forall ped lim fuel more content stdin fs rnd,
+  ob_status (run_file ped lim fuel content stdin fs rnd) <> SFuel ->
+  run_file ped lim (fuel + more) content stdin fs rnd = run_file ped lim fuel content stdin fs rnd.
+Proof. exact run_file_fuel_monotone. Qed.
+Print Assumptions C01_fuel_is_only_a_bound.
+
+Theorem C01_evaluator_fuel_step : forall ped repl lim fuel bl c s,
+  run_block ped repl lim fuel bl c s = run_block ped repl lim (S fuel) bl c s \/ exists s', run_block ped repl lim fuel bl c s = (Fail FFuel, s').
+Proof. exact run_block_fuel_step. Qed.
+Print Assumptions C01_evaluator_fuel_step.
+
+(* whatever happens (diagnostic, signal, internal crash outcome, fuel stop), what was printed stays printed *)
+Theorem C01_output_is_append_only : forall ped repl lim fuel bl c s,
+  exists e, s_out (snd (run_block ped repl lim fuel bl c s)) = e ++ s_out s.
+Proof. exact run_block_output_append_only. Qed.
+Print Assumptions C01_output_is_append_only.
 
 (* non-vacuity: a crash outcome exists in the model and is reachable for ill-formed internal states *)
 Example C01_crash_is_observable : exists r s, as_int r s = (Fail (FCrash "get<Integer> on other payload"), s).
